@@ -17,7 +17,10 @@ C28.SHAPE: null -> error for non-null types / Null otherwise, before anything el
 a non-array in a one-element slice and recurse on the item type; input objects reject a key that
 is not a declared field before coercing, then for each declared field: provided -> recurse,
 default -> insert, non-null -> error; coerce_variable_values inserts exactly the provided or
-defaulted variables and errors on a missing non-null one.  Does not decide numeric edge values.
+defaulted variables and errors on a missing non-null one.  C28.DEFAULTS: graphql_value_to_json,
+which turns a default value into JSON (defaults are not coerced again), is faithful per literal
+kind; Int / Float literals go through the parser of their own text, never a narrowing conversion.
+Does not decide numeric edge values.
 """
 
 WANT = {
@@ -243,6 +246,55 @@ def rule_shape(prog, rep):
         rep.finding("C28.SHAPE", cv.name, "variables", "coerce_variable_values no longer inserts exactly the provided or defaulted variables (inserts: %d)" % len(inserts), cv.loc())
 
 
+def rule_defaults(prog, rep):
+    """C28.DEFAULTS: a default value (variable default, input-field default) is turned into JSON by
+    graphql_value_to_json *before* it is coerced to the declared type - CoerceVariableValues uses
+    the default as it is.  So the conversion must be faithful for every literal the validator
+    accepts at that position: an integer literal is a valid Float / ID / custom-scalar default, so
+    Int and Float literals go through the full-precision number parser of their own text
+    (`as_str().parse()`), never through a narrowing conversion such as try_to_i32 / try_to_f64;
+    strings, enums and booleans are copied; null is Null; lists and objects recurse; a variable is
+    a validation bug."""
+    rep.floor("C28.DEFAULTS", 7)
+    from ..flow import _strip
+    from ..tables import enum_paths, return_value_on_path
+    g = prog.fn(r"^apollo_compiler::resolvers::input_coercion::graphql_value_to_json$")
+    rows = {}
+    for atoms, _rb, path in enum_paths(g):
+        vs = [f for f in _strip(atoms) if f[0] in ("variant", "variant_in") and re.search(r"AsRef<T>>::as_ref@\d+$|^arg2", f[1])]
+        if not vs:
+            continue
+        names = (vs[0][2],) if vs[0][0] == "variant" else tuple(vs[0][2])
+        val = return_value_on_path(g, path) or ""
+        for n in names:
+            rows.setdefault(n, set()).add(val)
+    WANT = {
+        "Null": r"^Result::Ok\{Value::Null\{\}\}$",
+        "Boolean": r"^Result::Ok\{.*\.as:Boolean\.0",
+        "String": r"^Result::Ok\{.*\.as:String\.0",
+        "Enum": r"^Result::Ok\{.*\.as:Enum\.0",
+        "Int": r"^Result::Ok\{Value::Number\{.*str::parse\(&?\*?impls::as_str\(.*\.as:Int\.0\)\).*\}\}$",
+        "Float": r"^Result::Ok\{Value::Number\{.*str::parse\(&?\*?impls::as_str\(.*\.as:Float\.0\)\).*\}\}$",
+        "List": r"^Iterator::collect\(Iterator::map\(.*\.as:List\.0\)\), closure:.*graphql_value_to_json::\{closure#\d+\}\)\)$",
+        "Object": r"^Iterator::collect\(Iterator::map\(.*\.as:Object\.0\)\), closure:.*graphql_value_to_json::\{closure#\d+\}\)\)$",
+        "Variable": r"^Result::Err\{InputCoercionError::SuspectedValidationBug",
+    }
+    for v, pat in WANT.items():
+        got = rows.get(v, set())
+        oks = [x for x in got if re.search(pat, x)]
+        others = [x for x in got if not re.search(pat, x) and "from_residual(" not in x]
+        ok = bool(oks) and not others
+        if v in ("Int", "Float") and any(re.search(r"try_to_|as_i32|as_f64|to_i32|to_f64", x) for x in got):
+            ok = False
+        rep.obligation(ok)
+        if ok:
+            rep.instance("C28.DEFAULTS", "graphql_value_to_json: %s -> %s" % (v, {"Int": "Number(parse of the literal's own text)", "Float": "Number(parse of the literal's own text)"}.get(v, "as specified")))
+        else:
+            rep.finding("C28.DEFAULTS", g.name, "default:" + v,
+                        "a %s literal used as a default value is converted by `%s`; defaults are not coerced again, so the conversion must keep every value the validator accepts (an integer literal beyond 32 bits is a valid Float / ID / custom-scalar default)" % (v, (sorted(others) or sorted(got) or ["nothing"])[0][:160]), g.loc())
+
+
 def run(prog, rep):
     rule_scalars(prog, rep)
     rule_shape(prog, rep)
+    rule_defaults(prog, rep)
